@@ -49,7 +49,9 @@ class MethodDescriptor(metaclass=ABCMeta):
 
     def __get__(self, instance: Any, spec_cls: Type = None) -> Callable:
         if self.dissolve:
-            setattr(spec_cls, self.name, self.method)
+            # Replace this descriptor on the class it was attached to (not on
+            # whichever subclass happened to be used for the lookup).
+            setattr(self.spec_cls or spec_cls, self.name, self.method)
         if instance is not None:
             return types.MethodType(self.method, instance)
         return self.method
